@@ -6,17 +6,50 @@ use digest::Digest;
 pub trait Hx {
     fn upd(&mut self, d: &[u8]);
     fn fin_reset(&mut self) -> Vec<u8>;
+    /// the public ways to finalize and reset: 0 Digest::finalize_reset, 1 FixedOutput::finalize_fixed_reset,
+    /// 2 FixedOutput::finalize_into_reset, 3 FixedOutputDirty::finalize_into_dirty + Reset::reset
+    fn fin_reset_how(&mut self, how: usize) -> Vec<u8>;
+    /// the public ways to finalize: 0 Digest::finalize, 1 FixedOutput::finalize_fixed, 2 FixedOutput::finalize_into
+    fn fin_how(self: Box<Self>, how: usize) -> Vec<u8>;
     fn fin(self: Box<Self>) -> Vec<u8>;
     fn rst(&mut self);
     fn cl(&self) -> Box<dyn Hx>;
     fn chain_fin(self: Box<Self>, d: &[u8]) -> Vec<u8>;
 }
-impl<D: Digest + Clone + 'static> Hx for D {
+impl<D: Digest + digest::FixedOutput + digest::FixedOutputDirty + digest::Reset + Clone + 'static> Hx for D {
     fn upd(&mut self, d: &[u8]) {
         Digest::update(self, d)
     }
     fn fin_reset(&mut self) -> Vec<u8> {
         Digest::finalize_reset(self).to_vec()
+    }
+    fn fin_reset_how(&mut self, how: usize) -> Vec<u8> {
+        match how % 4 {
+            0 => Digest::finalize_reset(self).to_vec(),
+            1 => digest::FixedOutput::finalize_fixed_reset(self).to_vec(),
+            2 => {
+                let mut o = digest::generic_array::GenericArray::default();
+                digest::FixedOutput::finalize_into_reset(self, &mut o);
+                o.to_vec()
+            }
+            _ => {
+                let mut o = digest::generic_array::GenericArray::default();
+                digest::FixedOutputDirty::finalize_into_dirty(self, &mut o);
+                digest::Reset::reset(self);
+                o.to_vec()
+            }
+        }
+    }
+    fn fin_how(self: Box<Self>, how: usize) -> Vec<u8> {
+        match how % 3 {
+            0 => Digest::finalize(*self).to_vec(),
+            1 => digest::FixedOutput::finalize_fixed(*self).to_vec(),
+            _ => {
+                let mut o = digest::generic_array::GenericArray::default();
+                digest::FixedOutput::finalize_into(*self, &mut o);
+                o.to_vec()
+            }
+        }
     }
     fn fin(self: Box<Self>) -> Vec<u8> {
         Digest::finalize(*self).to_vec()
@@ -242,25 +275,27 @@ impl HEpisode {
         self.reference(out, id);
         self.k += 1;
         let s = self.slots.get_mut(&id).expect("slot");
-        let r = guarded(|| s.h.fin_reset());
+        let how = self.k / 2 + id;
+        let r = guarded(|| s.h.fin_reset_how(how));
         s.msg.clear();
         let (res, o) = match r {
             Ok(o) => ("ok".to_string(), o),
             Err(p) => (format!("panic:{}", sanitize(&p)), vec![]),
         };
-        Ev::new(self.k, "finreset").i("i", id as i64).bytes("out", &o).s("res", &res).emit(out);
+        Ev::new(self.k, "finreset").i("i", id as i64).i("how", (how % 4) as i64).bytes("out", &o).s("res", &res).emit(out);
     }
     pub fn fin(&mut self, out: &mut dyn std::io::Write, id: usize) {
         self.reference(out, id);
         self.k += 1;
         let s = self.slots.remove(&id).expect("slot");
         let h = s.h;
-        let r = guarded(move || h.fin());
+        let how = self.k / 2 + id;
+        let r = guarded(move || h.fin_how(how));
         let (res, o) = match r {
             Ok(o) => ("ok".to_string(), o),
             Err(p) => (format!("panic:{}", sanitize(&p)), vec![]),
         };
-        Ev::new(self.k, "fin").i("i", id as i64).bytes("out", &o).s("res", &res).emit(out);
+        Ev::new(self.k, "fin").i("i", id as i64).i("how", (how % 3) as i64).bytes("out", &o).s("res", &res).emit(out);
     }
 }
 
